@@ -25,16 +25,25 @@ list); there is no `partial`, no fuel that can run out (the only fuel, `bitLen 3
 `u32`) and `check.py` rejects `partial` / `unsafe` / `implemented_by` in every model file.  So "fails to
 terminate" has no counterpart in the model; for the implementation it is the watchdog of the tie.
 
-NOT modelled for totality (exercised by the tie only, on both build profiles): the per-pixel / per-block
-codec bodies (`bc*.rs`, `bc6.rs`, `bc7.rs`, `uncompressed.rs`, `sub_sampled.rs`, `bi_planar.rs` conversion
-arithmetic on fixed-size arrays with literal indices and saturating casts), `convert_channels_for`, the
-external `astc-decode` crate, and `std` (`read_exact`, `io::copy`, `Vec::try_reserve_exact`).
+Section 6 (codec bodies): `bc1to5_bodies_trapfree`, `bc7_body_trapfree`, `bc6_body_trapfree`,
+`uncompressed_bodies_trapfree`, `subsampled_biplanar_bodies_trapfree`, `channel_conversion_trapfree`,
+`pixel_loop_wrappers_trapfree` — trapping mirrors (`Trap*.lean`) of the per-block / per-pixel bodies return `some`
+of the wrapping models' values for every input.
+
+NOT modelled for totality (exercised by the tie only, on both build profiles): the external `astc-decode` crate,
+the slicing inside the generic block / plane loops of `read_write.rs` beyond C05's address theorems, and `std`
+(`read_exact`, `io::copy`, `Vec::try_reserve_exact`).  That `f32` arithmetic and float → integer casts never panic
+is a fact about Rust that the mirrors assume.
 -/
 import DdsModel.Proofs.C01
 import DdsModel.Proofs.ReaderRefinesRun
 import DdsModel.Theorems.C05
 import DdsModel.Theorems.C20
 import DdsModel.Drv.C01
+import DdsModel.Proofs.TrapBc
+import DdsModel.Proofs.TrapBc7
+import DdsModel.Proofs.TrapBc6
+import DdsModel.Proofs.TrapUnc
 namespace Dds.C01
 open Dds Dds.Stream Dds.Reader
 
@@ -602,6 +611,229 @@ example :
         (step ⟨{ len := 148 + 960 }, o.fam, o.layout⟩ ⟨SurfIter.new o.layout, 148, 127⟩ (.read 16 16 (3, 0))).2,
         opNeed ⟨{ len := 148 + 960 }, o.fam, o.layout⟩ ⟨SurfIter.new o.layout, 148, 127⟩ (.read 16 16 (3, 0)))
      | .error _ => (.ok, .ok, 0)) = (.io, .memoryLimitExceeded, 128) := by
+  decide +kernel
+
+/-! ## 6. The per-block / per-pixel codec bodies do not panic
+
+`Trap*.lean` are *trapping mirrors* of the codec bodies: the same functions as the value models of C03 / C03x /
+C04 (`Bc.lean`, `Bc7.lean`, `Bc6.lean`, `Conv.lean`, `Uncompressed.lean`), written with the operators of
+`Trap.lean`, which return `none` wherever Rust panics in the `checked` build profile (overflow-checks +
+debug-assertions): `+ - *` leaving the integer type, a shift by ≥ the bit width, a run-time index out of range,
+a division by zero, a failing `debug_assert!` / `unreachable!()`.  Each theorem says: for EVERY block / encoded
+pixel the mirror returns `some v`, and `v` is exactly what the wrapping (release) model computes.  So no panic
+site of the body is reachable, and checked and release arithmetic agree. -/
+
+/-- **BC1–BC5 bodies** (`src/decode/bc.rs` `mod blocks` + the `formats.rs` conversions they call): the 13
+decoders `BC1_UNORM`, `BC2_UNORM` (RGBA, RGB), `BC2_UNORM_PREMULTIPLIED_ALPHA`, `BC3_UNORM` (RGBA, RGB),
+`BC3_UNORM_PREMULTIPLIED_ALPHA`, `BC3_UNORM_RXGB`, `BC3_UNORM_NORMAL`, `BC4_UNORM`, `BC4_SNORM`, `BC5_UNORM`,
+`BC5_SNORM` at U8, U16 and F32.  For every block (any 8 / 16 bytes): no `u8`/`u16`/`u32` operation overflows
+(`x * 17`, `x as u16 * 2108 + 92`, `(self.r5 * 2 + color.r5) * 351 + 61`, `g as u32 * 2763 + 1039`,
+`c0_u16 * 6 + c1_u16`, `interpolation as u32 * 2406112 + 28064`, `*channel as u16 * 255`, `x as u16 * 257`, …),
+every `debug_assert!` holds (`x <= 15/31/63`, `interpolation <= 1785/1275/1778/1270`), every palette / pixel
+index is in range (`lut[index as usize]`, `alpha_bytes[i * 2 + 1]`, `pixels[i * 4 + j]`), every shift amount is
+below the width (`indexes >> (i * 2)`, `>> (j * 3)`), the divisor of `to_straight_alpha` is non-zero — and the
+16 pixels are those of `Bc.decodeBlock`. -/
+theorem bc1to5_bodies_trapfree (f : Bc.Fmt) (pr : Bc.Prec) (blk : Nat → Nat) (hb : ∀ i, blk i < 256) :
+    TrapBc.blockT f pr blk = some (Bc.decodeBlock f pr blk) :=
+  TrapBc.blockT_eq f pr blk hb
+
+/-- non-vacuity: concrete blocks through the mirror (BC1 in three-colour mode with a transparent pixel at
+U16, a premultiplied BC3 block with alpha 0 at U8, a BC5_SNORM block with endpoints −128 / 127 at U16);
+the mirror is not constantly `some`: an out-of-range 5-bit field makes `n5::n8`'s `debug_assert!` fail,
+a 300 "byte" makes `x as u16 * 257` overflow -/
+example :
+    let b1 : Nat → Nat := fun i => [0x34, 0x12, 0x78, 0x56, 0xE4, 0x1B, 0xFF, 0x00].getD i 0
+    let b3 : Nat → Nat := fun i =>
+      [0x00, 0xFF, 0x88, 0xC6, 0xFA, 0x53, 0x97, 0x1F, 0xFF, 0xFF, 0x00, 0x00, 0xE4, 0x1B, 0x4E, 0xB1].getD i 0
+    let b5 : Nat → Nat := fun i =>
+      [0x80, 0x7F, 0x88, 0xC6, 0xFA, 0x53, 0x97, 0x1F, 0x7F, 0x80, 0x00, 0x11, 0x22, 0x33, 0x44, 0x55].getD i 0
+    (TrapBc.blockT .bc1 .u16 b1).map (·.take 4) =
+      some [[4112, 17733, 42405, 65535], [21074, 52942, 50629, 65535], [12593, 35466, 46517, 65535], [0, 0, 0, 0]] ∧
+    (TrapBc.blockT .bc3p .u8 b3).map (·.take 4) =
+      some [[255, 255, 255, 0], [0, 0, 0, 255], [255, 255, 255, 51], [212, 212, 212, 102]] ∧
+    (TrapBc.blockT .bc5s .u16 b5).map (·.take 4) =
+      some [[0, 65535, 32768], [65535, 65535, 32768], [13107, 37449, 32768], [26214, 65535, 32768]] ∧
+    TrapBc.blockT .bc1 .u16 b1 = some (Bc.decodeBlock .bc1 .u16 b1) ∧
+    TrapBc.n5n8T 32 = none ∧ TrapBc.n8n16T 300 = none := by
+  decide +kernel
+
+/-- **BC7 body** (`src/decode/bc7.rs` in full, `BitStream` / `Indexes` of `bcn_util.rs`, `get_subset_index` of
+`bcn_data.rs`).  For EVERY block (any `Nat`, in particular every 128-bit value; modes 0–7 and the reserved mode):
+every shift amount is below the width (`state >>= n` on `u128`, `1_u16 << count`, `(1 << bits) - 1`,
+`(1 << keep_count) - 1`, `>>= keep_count`, `<<= keep_count` on `u64`, `number <<= 8 - number_bits` on `u8`),
+the `u8` products `16 * bits - k`, `index * bits`, `pixel_index * self.bits`, `mode + 1` do not overflow, every
+`debug_assert!` holds (`0 < count <= 8`, `count <= 64`, `bits <= 4`, `0 < p2_fixup < p3_fixup`,
+`pixel_index < 16`, `(4..8).contains(&number_bits)`, the `MODE` tests), every table index is in range
+(`PARTITION_SET_2/3[partition_set_id]` with 64 entries, `WEIGHTS_2/3/4[index]`, `endpoints[2 * subset_index + 1]`,
+`r[i]`, `output[pixel_index]`), no `unreachable!()` is reached, and the `u16` interpolation
+`(256 - weight) * e0 + weight * e1 + 128` stays below 65 536 — and the 16 pixels are those of `Bc7.decodeBlock`;
+the U16 wrapper (`x as u16 * 257`) does not overflow either. -/
+theorem bc7_body_trapfree (b : Nat) :
+    TrapBc7.decodeBlockT b = some (Bc7.decodeBlock b) ∧
+    ∀ (prec : Nat) (f32of : Nat → Nat), TrapBc7.decodeT prec f32of b =
+      some (if prec = 0 then Bc7.decodeBlock b
+        else if prec = 1 then (Bc7.decodeBlock b).map (List.map (· * 257))
+        else (Bc7.decodeBlock b).map (List.map f32of)) :=
+  ⟨TrapBc7.decodeBlockT_eq b, fun prec f => TrapBc7.decodeT_eq prec f b⟩
+
+/-- non-vacuity: one block per mode 0..7 and a reserved-mode block through the mirror (first pixel shown), and
+the mirror does trap outside the proved ranges: a weight of 300 underflows `256 - weight`, an index width of 5
+shifts a `u64` by 75, `promote(_, 8)` fails its `debug_assert!` -/
+example :
+    ([0xfedcba98765432100123456789abcde1, 0xfedcba98765432100123456789abcde2, 0xfedcba98765432100123456789abcde4,
+      0xfedcba98765432100123456789abcde8, 0xfedcba98765432100123456789abcd10, 0xfedcba98765432100123456789abcd20,
+      0xfedcba98765432100123456789abcd40, 0xfedcba98765432100123456789abcd80,
+      0xfedcba98765432100123456789abcd00].map fun b => (TrapBc7.decodeBlockT b).map (·.take 1)) =
+    [some [[211, 162, 112, 255]], some [[71, 147, 3, 255]], some [[73, 109, 121, 255]], some [[231, 43, 9, 255]],
+     some [[107, 82, 198, 120]], some [[155, 76, 173, 72]], some [[52, 154, 88, 34]], some [[125, 207, 36, 101]],
+     some [[0, 0, 0, 0]]] ∧
+    TrapBc7.lerpT 255 255 300 = none ∧ TrapBc7.getIndexT ⟨0, 5, 31⟩ 15 = none ∧ TrapBc7.promoteT 3 8 = none := by
+  decide +kernel
+
+/-- **BC6H body, whole block** (`src/decode/bc6.rs` in full, `consume_bits_32` / `consume_bits_rev`, the `Indexes`
+of BC7, and the six decoders `bc6_{s,u}_{u8,u16,f32}` of `bc.rs` with `fp16::*` / `bc6h_uf16::*` / `two_powi`).
+For EVERY block, both formats (`signed = true`: `BC6H_SF16`), all three precisions (0 = U8, 1 = U16, 2 = F32):
+* header: the `unreachable!()` arms of `extract_mode` are not reached, every `consume!` of the ten two-region
+  sequences and the reads of the four one-region modes satisfy `0 < count <= 31` resp. `count <= 8`, the `u8`
+  subtractions `20 - a0_bit_count`, `a0_bit_count - 10`, `8 - count`, `32 - bit_count` do not underflow,
+  `partition < 32` indexes the 64-entry table, the fix-up index satisfies `0 < p2_fixup`;
+* endpoints: all three `debug_assert!`s of `sign_extend` hold at each of its calls (in particular
+  `x & !((1 << bit_count) - 1) == 0`: the raw fields are below `2^width` by `C03x.bc6_extract_eq_fields`, the
+  transformed ones are masked), `(1 << a_bit_count) - 1` does not overflow;
+* `unquantize`, the interpolation `a * (64 - w) + b * w + 32` and `finish_unquantize`: no `i32` operation
+  overflows (`+`, `*`, unary `-`), every shift amount is below 32;
+* `palette[index]` (16 entries) and `palette[subset_index][index]` (2 × 8) are in range;
+* conversion: for `BC6H_UF16` every decoded half is `< 0x7C00`, so both `debug_assert!`s of `bc6h_uf16::{n8,n16,f32}`
+  hold; `exp as i8 - 25` stays in `i8`, `two_powi`'s `debug_assert!(-126 <= exponent)` holds;
+and the result is the wrapping model's block `Bc6.decodeBlock` with the model's conversion applied per channel.
+(The mirror traps on `i32 <<` only for amounts ≥ 32, as Rust does; `C03x.bc6_no_i32_overflow` is the stronger
+statement that those shifts lose no bits either.) -/
+theorem bc6_body_trapfree (signed : Bool) (b : Nat) :
+    TrapBc6.decodeBlockT signed b = some (Bc6.decodeBlock signed b) ∧
+    (signed = false → ∀ px ∈ Bc6.decodeBlock signed b, ∀ v ∈ px, v < 0x7C00) ∧
+    ∀ prec, TrapBc6.decodeT signed prec b =
+      some ((Bc6.decodeBlock signed b).map (List.map (TrapBc6.conv signed prec))) :=
+  ⟨(TrapBc6.decodeBlockT_eq signed b).1, (TrapBc6.decodeBlockT_eq signed b).2,
+   fun prec => TrapBc6.decodeT_eq signed prec b⟩
+
+/-- non-vacuity: a two-region block (mode 01100-style code `…ec`) as `BC6H_UF16`, a one-region block (`…03`) as
+`BC6H_SF16` through block decode and conversion, a reserved code; and the mirror traps outside the proved ranges:
+`bc6h_uf16::n8(0x7C00)` (Inf) and `(0x8001)` (negative) fail their `debug_assert!`s, `sign_extend(64, 6)` fails its
+bit-pattern assert, `-(i32::MIN)` and `i32::MAX * 64` overflow -/
+example :
+    (TrapBc6.decodeBlockT false 0x00000000000000000123456789abcdec).map (·.take 3) =
+      some [[19328, 26520, 29899], [19328, 26520, 29899], [19328, 26086, 29403]] ∧
+    (TrapBc6.decodeBlockT true 0x0123456789abcdef0011223344556603).map (·.take 3) =
+      some [[37586, 9611, 33863], [3289, 8652, 60905], [1938, 8812, 56398]] ∧
+    (TrapBc6.decodeT true 1 0x0123456789abcdef0011223344556603).map (·.take 3) =
+      some [[0, 1419, 0], [19, 742, 0], [8, 822, 0]] ∧
+    (TrapBc6.decodeBlockT true 0xfedcba98765432100123456789abcd13).map (·.take 1) = some [[0, 0, 0]] ∧
+    TrapBc6.convT false 0 0x7C00 = none ∧ TrapBc6.convT false 0 0x8001 = none ∧
+    TrapBc6.signExtendT 64 6 = none ∧ TrapBc6.finishUnquantizeT (-2147483648) true = none ∧
+    TrapBc6.paletteEntryT 2147483647 1 0 false = none := by
+  decide +kernel
+
+/-- **Uncompressed / packed formats, all 45 rows of C04's table × every precision** (`src/decode/uncompressed.rs`
+and the conversion functions of `src/color/formats.rs` it calls; the 7 sub-sampled and 3 bi-planar rows are included:
+their per-pixel conversions are the same functions).  For EVERY encoded unit value `word` (no bound: fields are
+extracted by shift and mask) and every pixel `p` of the unit, the trapping mirror returns the pixel of the wrapping
+model `Unc.decodePx`:
+* every `debug_assert!(x <= 1 / 3 / 15 / 31 / 63 / 1023)` of `n1 … n10` holds because the argument is a 1/2/4/5/6/10-bit
+  field; no multiply-add overflows its type: `x * 85`, `x * 17` (`u8`), `x as u16 * 21845 / 4369 / 257`,
+  `x as u16 * 2108 + 92`, `x as u16 * 1036 + 132`, `x as u32 * 138547200` (31 · 138 547 200 = 2^32 − 4 096),
+  `x as u32 * 68173056 + 30976`, `x as u32 * 16336 + 32656`, `x as u32 * 4198340 + 32660`, `x as u32 * 255 + 32895`,
+  SNORM `x as u16 * 258 + 2`, `x as u32 * 16909064 + 32520`, `x as u32 * 65282 + 8388354`, `x as u32 * 65538 + 2`;
+* XR_BIAS: `x as i16 - 0x180` stays in `i16` because `x` is a 10-bit field (it would NOT for `x = 0x8000`: see the
+  example), `(x + 1) >> 1`, `x as u32 * 8421376 + 65535` (510 · 8 421 376 + 65 535 = 2^32 − 1: the last value that fits);
+* fp16 / fp11 / fp10 / R9G9B9E5: `exp as i8 - 25 / 21 / 20 / 24` stays in `i8`, `two_powi`'s
+  `debug_assert!(-126 <= exponent)` holds, `(exponent as i32 + 127) as u32) << 23` shifts by less than 32,
+  `(mant + 7) >> 4`, `(mant + 3) >> 3` stay in `u16`;
+* `f32` paths (`n*::f32`, `s*::uf32`, `fp::n8/n16`, the YUV matrices, clamps, `as u8` / `as u16` of floats): no panic site.
+`Unc.formats.length = 45`. -/
+theorem uncompressed_bodies_trapfree :
+    Unc.formats.length = 45 ∧
+    ∀ fm ∈ Unc.formats, ∀ prec word p : Nat,
+      TrapUnc.decodePxT fm prec word p = some (Unc.decodePx fm prec word p) :=
+  ⟨TrapUnc.formats_len, fun fm hfm prec word p =>
+    TrapUnc.decodePxT_eq fm (TrapUnc.formats_ok fm hfm) prec word p⟩
+
+/-- non-vacuity: pixels through the mirror (B5G6R5 at U16, XR_BIAS at U16 with the bias value 0x180 → 0,
+R10G10B10A2 at U8, R16G16_SNORM at U8 with −32768 / 32767 and the blue default ½); the mirror traps outside the
+field ranges: `xr10::n8(0x8000)` overflows `i16`, `n10::n16(1024)` fails its `debug_assert!` -/
+example :
+    (Unc.findFmt "B5G6R5_UNORM").map (fun fm => TrapUnc.decodePxT fm 1 0xF81F 0) = some (some [65535, 0, 65535]) ∧
+    (Unc.findFmt "R10G10B10_XR_BIAS_A2_UNORM").map (fun fm => TrapUnc.decodePxT fm 1 0xBFF00180 0) =
+      some (some [0, 0, 65535, 43690]) ∧
+    (Unc.findFmt "R10G10B10A2_UNORM").map (fun fm => TrapUnc.decodePxT fm 0 0x7FF003FF 0) =
+      some (some [255, 0, 255, 85]) ∧
+    (Unc.findFmt "R16G16_SNORM").map (fun fm => TrapUnc.decodePxT fm 0 0x80007FFF 0) = some (some [255, 0, 128]) ∧
+    TrapUnc.xr10n8T 0x8000 = none ∧ TrapUnc.n10n16T 1024 = none := by
+  decide +kernel
+
+/-- **Sub-sampled and bi-planar units** (`src/decode/sub_sampled.rs`, `bi_planar.rs`): all pixels of one encoded
+unit — the 2 pixels of a `R8G8_B8G8` / `G8R8_G8B8` / `YUY2` / `UYVY` / `Y210` / `Y216` block, the 8 pixels of an
+`R1_UNORM` byte, a luma sample with its chroma pair for `NV12` / `P010` / `P016` — for every unit value, format row
+and precision; `r1_bits` (`out[i] = (bits >> (7 - i)) & 1`: `usize` subtraction, `u8` shift by `7 - i < 8`, index
+`i < 8`) never traps; `decode_y210` / `to10` shift by the literal 6; the YUV conversions are float arithmetic with
+saturating casts (`Conv.yuvTo`).  (Which unit feeds which output pixel — `process_2x1_blocks_helper`,
+`process_8x1_blocks_helper`, `process_bi_planar_helper`, chroma line pairing — is `C01.decode_addresses_in_view` /
+`decode_addresses_planar` and C04's pairing theorems.) -/
+theorem subsampled_biplanar_bodies_trapfree :
+    (∀ bits, TrapUnc.r1BitsT bits = some ((List.range 8).map fun i => (bits >>> (7 - i)) &&& 1)) ∧
+    ∀ fm ∈ Unc.formats, ∀ prec word : Nat,
+      TrapUnc.unitT fm prec word = some ((List.range fm.pxPerUnit).map (Unc.decodePx fm prec word)) :=
+  ⟨TrapUnc.r1BitsT_eq, fun fm hfm prec word => TrapUnc.unitT_eq fm (TrapUnc.formats_ok fm hfm) prec word⟩
+
+/-- non-vacuity: the eight pixels of the `R1_UNORM` byte `0xA5` at U16, and the table contains units of 2 and 8 pixels
+and bi-planar rows -/
+example :
+    (Unc.findFmt "R1_UNORM").map (fun fm => TrapUnc.unitT fm 1 0xA5) =
+      some (some [[65535], [0], [65535], [0], [0], [65535], [0], [65535]]) ∧
+    (Unc.formats.filter (·.pxPerUnit == 2)).length = 6 ∧ (Unc.formats.filter (·.pxPerUnit == 8)).length = 1 ∧
+    (Unc.formats.filter (·.planar.isSome)).length = 3 := by
+  decide +kernel
+
+/-- **Channel conversion** (`convert_channels_for` / `convert_channels::<Precision>`, `src/color/mod.rs`, with
+`cast::from_bytes` of `src/cast.rs`): for every pair of channel layouts, every precision size (1, 2, 4 bytes) and
+every pixel count `n`, on buffers of `n` pixels each — which is what the five call sites of
+`read_write.rs:781,840,883,943,984` pass (`buffer_chunk` / `out_chunk` or row slices of `chunk_size` resp. `offset_width` pixels) — the three `debug_assert!`s hold, the
+`expect("invalid from buffer")` / `expect("invalid to buffer")` of `cast::from_bytes` succeed (the length is a
+multiple of the chunk size; byte arrays have alignment 1), `from_chunked.len() == to_chunked.len()`, and
+`copy_from_slice` gets equal lengths.  The per-pixel functions of `ch.rs` only use literal indices into
+fixed-size arrays (`Unc.convertChannels`).  `cast.rs` itself: `from_bytes` / `from_bytes_mut` return `Option`, the
+`unwrap`s of `as_flattened*` and of `slice_le_to_ne_16/32` are on the big-endian path or on non-ZST arrays and the
+`assert!(buf.len() % 2 == 0)` / `% 4` are on buffers of whole `u16` / `u32` / `f32` elements (lengths `n * 2`, `n * 4`). -/
+theorem channel_conversion_trapfree (src dst : Unc.Channels) (size n : Nat) (hs : size = 1 ∨ size = 2 ∨ size = 4) :
+    TrapUnc.convertChannelsT src dst size (n * (size * TrapUnc.chanCount src)) (n * (size * TrapUnc.chanCount dst)) =
+      some () ∧
+    (n * 2) % 2 = 0 ∧ (n * 4) % 4 = 0 :=
+  ⟨TrapUnc.convertChannelsT_eq src dst size n hs, Nat.mul_mod_left .., Nat.mul_mod_left ..⟩
+
+/-- non-vacuity: RGB → RGBA at U16 on 2 pixels (12 → 16 bytes) passes; mismatched or ragged buffers trap -/
+example :
+    TrapUnc.convertChannelsT .rgb .rgba 2 12 16 = some () ∧ TrapUnc.convertChannelsT .rgb .rgba 2 12 15 = none ∧
+    TrapUnc.convertChannelsT .rgb .rgba 2 12 24 = none ∧ TrapUnc.convertChannelsT .rgba .rgba 4 32 16 = none := by
+  decide +kernel
+
+/-- **The pixel-loop wrappers around the bodies** (`process_pixels_helper`, `process_pixels_helper_unroll` of
+`src/decode/read_write.rs`, the specialised `B8G8R8A8_UNORM` swap loop of `uncompressed.rs:193`), on the lengths they
+are called with (`n` pixels on both sides; the callers' slicing is C05 / `decode_addresses_in_view`): the
+`expect("Invalid input buffer")` / `expect("Invalid output buffer")` succeed for any non-empty pixel types and `n`
+pixels are processed; the unrolled variant (`UNROLL = 4`, `u16 → u16` and `u16 → f32`: the only two instantiations)
+slices inside both buffers, its `usize` products do not overflow and `debug_assert!(encoded.len() == decoded.len())`
+holds for the rest; `out.swap(i, i + 2)` stays inside a row of whole RGBA pixels. -/
+theorem pixel_loop_wrappers_trapfree :
+    (∀ a b n, 0 < a → 0 < b → TrapUnc.processPixelsT a b (n * a) (n * b) = some n) ∧
+    (∀ b n, (b = 2 ∨ b = 4) → n < 2 ^ 60 → TrapUnc.processPixelsUnrollT 4 2 b (n * 2) (n * b) = some ()) ∧
+    (∀ n, TrapUnc.bgraSwapT (4 * n) = some ()) :=
+  ⟨TrapUnc.processPixelsT_eq, TrapUnc.processPixelsUnrollT_eq, TrapUnc.bgraSwapT_eq⟩
+
+/-- non-vacuity: 7 half pixels (one unrolled chunk of 4 + a rest of 3) pass; a ragged input, an output that is too
+short for the unrolled chunk, and a BGRA row of 6 bytes trap -/
+example :
+    TrapUnc.processPixelsUnrollT 4 2 4 14 28 = some () ∧ TrapUnc.processPixelsUnrollT 4 2 4 13 28 = none ∧
+    TrapUnc.processPixelsUnrollT 4 2 4 14 12 = none ∧ TrapUnc.processPixelsT 2 4 14 28 = some 7 ∧
+    TrapUnc.bgraSwapT 8 = some () ∧ TrapUnc.bgraSwapT 6 = none := by
   decide +kernel
 
 end Dds.C01
